@@ -53,8 +53,11 @@ def run(ck: Checker, prog: Program, tier: str):
     from . import c12
     with ck.borrow(c12, "C08.R3+"):
         ck.guard(c12._r5, ck, prog.func(c12.R))
+    with ck.borrow(c12, "C08.R3+"):
+        ck.guard(c12._meta_private, ck, prog)       # the search range stored with the object is the object's own record
     from . import c05
     with ck.borrow(c05, "C08.R2+"):
+        ck.guard(S.check_mask_lockstep, ck, prog, "C05.R4")     # an absent peak invalidates the window's peak entry and nothing else
         ck.guard(S.check_estimators, ck, prog, "C05.R3")
 
 
